@@ -114,15 +114,29 @@ func (f *decompressor) step() (err error) {
 	if state.phase == phaseFinish {
 		return io.EOF
 	}
+	if state.phase == phaseStreamEnd && state.input == nil && f.writePos == f.readPos {
+		// final block decoded, all input used and all output delivered:
+		// finish without asking the source for anything more
+		state.phase = phaseFinish
+		return io.EOF
+	}
 
 	if state.input == nil {
-		state.input, err = f.rBuf.Peek(f.rBuf.Size())
+		// Wait for one byte beyond those already held in the bit buffer, then
+		// take whatever the source has delivered so far; never insist on a
+		// full buffer, and report a source error only once all data delivered
+		// before it has been used.
+		held := int(f.state.bitsLen / 8)
+		state.input, err = f.rBuf.Peek(held + 1)
+		if len(state.input) > held {
+			state.input, err = f.rBuf.Peek(f.rBuf.Buffered())
+		}
 		f.peekSize = len(state.input)
 		if err != nil && err != bufio.ErrBufferFull && err != io.EOF {
 			return err
 		}
 		f.eof = err == io.EOF
-		state.input = state.input[f.state.bitsLen/8:]
+		state.input = state.input[held:]
 	}
 	f.readPos = f.writePos
 
